@@ -5,6 +5,7 @@
 -/
 import OrasModel.Proofs.Ref
 import OrasModel.Gen.Regex
+import OrasModel.Proofs.ReLen
 namespace Oras.Props.C20
 open Oras
 
@@ -306,6 +307,44 @@ example :
     (parseRef cfg "localhost:5000/a:t@sha256:xyz".toList).isNone ∧
     (parseRef cfg "nohost".toList).isNone := by
   decide
+
+/-- **Documented length rules, about the expressions the source compiles**: a tag the
+    library accepts has between 1 and 128 characters … -/
+theorem c20_tag_length (s : List Char) (h : Gen.tagRe.accepts s = true) : 1 ≤ s.length ∧ s.length ≤ 128 := by
+  have h1 := Re.minLen_sound Gen.tagRe s h
+  have h2 := Re.maxLen_sound Gen.tagRe 128 (by decide) s h
+  have hm : Re.minLen Gen.tagRe = 1 := by decide
+  rw [hm] at h1
+  exact ⟨h1, h2⟩
+
+/-- … the registered digest algorithms are exactly sha256, sha384 and sha512, and an
+    accepted encoding has exactly the algorithm's hex length … -/
+theorem c20_digest_length (alg : List Char) (r : Re) (hm : (alg, r) ∈ Gen.digestAlgs)
+    (s : List Char) (h : r.accepts s = true) :
+    (alg = "sha256".toList ∧ s.length = 64) ∨ (alg = "sha384".toList ∧ s.length = 96) ∨
+    (alg = "sha512".toList ∧ s.length = 128) := by
+  simp only [Gen.digestAlgs, List.mem_cons, Prod.mk.injEq, List.not_mem_nil, or_false] at hm
+  rcases hm with ⟨ha, hr⟩ | ⟨ha, hr⟩ | ⟨ha, hr⟩ <;> subst hr
+  · have h1 := Re.minLen_sound _ s h
+    have h2 := Re.maxLen_sound _ 64 (by decide) s h
+    exact Or.inl ⟨by rw [ha]; decide, by simp only [Re.minLen] at h1; omega⟩
+  · have h1 := Re.minLen_sound _ s h
+    have h2 := Re.maxLen_sound _ 96 (by decide) s h
+    exact Or.inr (Or.inl ⟨by rw [ha]; decide, by simp only [Re.minLen] at h1; omega⟩)
+  · have h1 := Re.minLen_sound _ s h
+    have h2 := Re.maxLen_sound _ 128 (by decide) s h
+    exact Or.inr (Or.inr ⟨by rw [ha]; decide, by simp only [Re.minLen] at h1; omega⟩)
+
+/-- … and a repository name is not empty. -/
+theorem c20_repository_nonempty (s : List Char) (h : Gen.repositoryRe.accepts s = true) : 1 ≤ s.length := by
+  have h1 := Re.minLen_sound Gen.repositoryRe s h
+  have hm : Re.minLen Gen.repositoryRe = 1 := by decide
+  rw [hm] at h1; exact h1
+
+-- Non-vacuity: a 128-character tag is accepted, a 129-character one is not.
+set_option maxRecDepth 16384 in
+example : Gen.tagRe.accepts (List.replicate 128 't') = true ∧ Gen.tagRe.accepts (List.replicate 129 't') = false := by
+  refine ⟨by decide, by decide⟩
 
 end Oras.Props.C20
 
